@@ -49,7 +49,7 @@ structure PassSt where
 /-- `_expand_shortcuts.check_for_orphan_jump` after the value has been left alone (`shortcut is None`) -/
 def checkForOrphanJump (out : List Item) (v : Leaf) : List Item × Bool :=
   if v.val.isNone then
-    let (ok, s) := consumeEdgeNode orphanJump v true false
+    let (ok, s) := consumeEdgeNode { orphanJump with runIds := [v.id] } v true false
     if ok then (Item.sc (-1) s :: out, true) else (Item.leaf v :: out, true)
   else (Item.leaf v :: out, false)
 
@@ -59,7 +59,7 @@ def tryReverseExpansion (s : Sc) : Nat → List Item → Sc × List Item
   | budget + 1, out =>
     match out with
     | Item.leaf l :: rest =>
-      let (ok, s') := consumeEdgeNode s l false false
+      let (ok, s') := guardedConsume s l false false
       if ok then tryReverseExpansion s' budget rest else (s', out)
     | _ => (s, out)
 
@@ -68,7 +68,7 @@ def stepPlain (st : PassSt) (v : Leaf) : PassSt :=
   let i := st.i
   match st.cur, st.out with
   | true, Item.sc sid s :: rest =>
-    let (ok, s1) := consumeEdgeNode s v true (i == st.lastEnd + 1 && st.lastEnd != 0)
+    let (ok, s1) := guardedConsume s v true (i == st.lastEnd + 1 && st.lastEnd != 0)
     if ok then { st with out := Item.sc sid s1 :: rest, i := i + 1 }
     else
       let (out', cur') := checkForOrphanJump (Item.sc sid s1 :: rest) v
@@ -104,17 +104,23 @@ def bindOne (vals : List Leaf) (slots : List (Leaf × Option (Int × Sc))) (p : 
     List (Leaf × Option (Int × Sc)) :=
   match p.2.nodes.find? (fun n => vals.any (fun v => v.id == n.id)) with
   | none => slots
-  | some n => slots.map (fun q => if q.1.id == n.id then (q.1, some (p.1, { p.2 with nodes := [] })) else q)
+  | some n => slots.map (fun q =>
+      if q.1.id == n.id then
+        (q.1, some (p.1, { p.2 with nodes := [], boundAsProduct := p.2.nodes.length == 1,
+                                    runIds := p.2.nodes.map (·.id) }))
+      else q)
 
 /-- `update_with_new_values`, first loop -/
 def bindShortcuts (shortcuts : List (Int × Sc)) (vals : List Leaf) : List (Leaf × Option (Int × Sc)) :=
   shortcuts.foldl (bindOne vals) (vals.map (fun v => (v, none)))
 
-/-- the final pop: "pop off final shortcut if it's a jump the user left off" -/
-def popTrailingJump (items : List Item) : List Item :=
-  match items.getLast? with
-  | some (Item.sc _ s) => if s.kind == Kind.jmp && s.origLen == 0 then items.dropLast else items
-  | _ => items
+/-- the final pops, on the items most recent first: every trailing shortcut that is a jump the user left off -/
+def popRev : List Item → List Item
+  | Item.sc sid s :: rest => if s.kind == Kind.jmp && s.origLen == 0 then popRev rest else Item.sc sid s :: rest
+  | out => out
+
+/-- "pop off the final shortcuts that are jumps the user left off" -/
+def popTrailingJump (items : List Item) : List Item := (popRev items.reverse).reverse
 
 /-- `ListNode.update_with_new_values` -/
 def updateWithNewValues (shortcuts : List (Int × Sc)) (vals : List Leaf) : List Item :=
